@@ -186,6 +186,39 @@ def value_equal_replacements(M, rec):
                     break
 
 
+def replacements_with_warnings_as_errors(M, rec):
+    """Scripted in every run: the caller runs with warnings turned into errors (`python -W error`, pytest's
+    `filterwarnings = error`): replacing an origin / destination, re-adding a node or a link are ordinary construction calls -
+    they build what they describe there too."""
+    import warnings
+
+    mkl = lambda: M.Link(2, 2, 1.0, 180.0, 33.0, 100.0, 1.8)  # noqa: E731
+    a, b, c = M.Node(name="A"), M.Node(name="B"), M.Node(name="C")
+    l1, l2, l3 = mkl(), mkl(), mkl()
+    net = M.Network()
+    st = netmon.graph_state(net)
+    o1, o2, d1, d2 = M.MeteredOnRamp(900.0), M.MainstreamOrigin(), M.Destination(), M.CongestedDestination()
+    ops = [("add_path", [a, l1, b, l2, c], o1, d1), ("add_origin", o2, a), ("add_destination", d2, c), ("add_node", b), ("add_link", a, l3, b),
+           ("add_path", [a, l1, b], o1, None), ("add_path", [b, l2, c], None, d1), ("add_origin", o1, b), ("add_nodes", [a, b, c])]
+    with warnings.catch_warnings():
+        warnings.simplefilter("error")
+        for op in ops:
+            rec.count("construction_calls_with_warnings_as_errors")
+            try:
+                if op[0] == "add_path":
+                    net.add_path(tuple(op[1]), origin=op[2], destination=op[3])
+                elif op[0] == "add_nodes":
+                    net.add_nodes(op[1])
+                else:
+                    getattr(net, op[0])(*op[1:])
+            except Exception as e:
+                rec.violation(f"{PROP}:{op[0]}: a well-formed construction call failed when the caller turns warnings into errors ({type(e).__name__})",
+                              {"op": op[0], "exception": repr(e)[:200]})
+            st = netmon.model_apply(st, op)
+            if not netmon.compare_state(rec, PROP, netmon.graph_state(net), st, (op[0] + " with warnings turned into errors",)):
+                break
+
+
 def histories(M, rec, rng, reps):
     for _ in range(reps):
         N = [M.Node() for _ in range(rng.randint(2, 5))]
@@ -409,6 +442,7 @@ def run(M, rec, tier, seed, k, n):
     rec.extra["path_shapes_exhaustive_up_to_length"] = maxlen
     names_in_place_of_nodes(M, rec)
     value_equal_replacements(M, rec)
+    replacements_with_warnings_as_errors(M, rec)
     path_shapes(M, rec, rng, maxlen, k, n)
     histories(M, rec, rng, 600 if tier == "quick" else 12000)
     if k == 0:
